@@ -317,6 +317,8 @@ def angle(ctx, name, unit="deg", halves=True, t_lo=None, t_hi=None):
         ctx.assume(Sym(a.t <= lift(Fraction(t_hi))))
         hi = math.degrees(2 * math.atan(float(t_hi))) + 1e-9
     a.rng = (lo, hi)
+    if t_lo is not None and t_hi is not None:          # (ground sampling may pick values from inside the interval)
+        ctx.path.__dict__.setdefault("bounds", {})["tanhalf_" + name] = (Fraction(t_lo), Fraction(t_hi))
     return Ang({name: 2 if halves else 1}, unit, {name: a})
 
 
